@@ -6,6 +6,8 @@ import (
 	"errors"
 	"fmt"
 	"math"
+	"math/big"
+	"sort"
 	"strconv"
 	"strings"
 
@@ -312,6 +314,10 @@ func c17One(o *hx.Out, in c17Input, tags ...string) (err error) {
 			}
 		}
 	}
+	tags = c17OverflowTags(c, tags)
+	for _, tg := range tags {
+		o.Count("tag=" + tg)
+	}
 	o.Add(coq, in, key, len(tables) > 0, tags...)
 	return nil
 }
@@ -395,6 +401,149 @@ func c17Oracles(o *hx.Out, in c17Input, c *benchstat.Collection, tables []*bench
 		}
 	}
 	return hx.L(hx.List(ptab), hx.List(logtab), hx.List(exptab)), c17RowStats{nshown, ntilde, nrows, nerr}
+}
+
+// ---------- known finding C17_binary64_overflow: input tag ----------
+//
+// The tag is decided per sample (the values recorded under one key) by
+// replaying the mechanism on the input values, never from what the library
+// reported:
+//  (a) the binary64 fence q1-1.5*(q3-q1), q3+1.5*(q3-q1) over R8 quartiles
+//      a+frac*(b-a) is not a pair of finite numbers although the exact fence
+//      (math/big rationals over the same order statistics) is, and the two
+//      retain different values;
+//  (b) the incremental mean m += (x-m)/(i+1) of the values the binary64 fence
+//      retains ends as NaN, or as an infinity that is not among them.
+
+// order statistics used by R8 at p, and the interpolation weight, exactly
+func c17R8(n int, p *big.Rat) (k int, frac *big.Rat) {
+	pos := new(big.Rat).SetFrac64(1, 3)
+	t := new(big.Rat).Add(new(big.Rat).SetInt64(int64(n)), big.NewRat(1, 3))
+	pos.Add(pos, t.Mul(t, p))
+	fl := new(big.Int).Div(pos.Num(), pos.Denom()) // pos > 0
+	k = int(fl.Int64())
+	frac = new(big.Rat).Sub(pos, new(big.Rat).SetInt(fl))
+	return
+}
+
+func c17ExactQuantile(s []float64, p *big.Rat) *big.Rat {
+	rat := func(x float64) *big.Rat {
+		if math.IsInf(x, 0) || math.IsNaN(x) {
+			return nil
+		}
+		return new(big.Rat).SetFloat64(x)
+	}
+	k, frac := c17R8(len(s), p)
+	if k <= 0 {
+		return rat(s[0])
+	}
+	if k >= len(s) {
+		return rat(s[len(s)-1])
+	}
+	a, b := rat(s[k-1]), rat(s[k])
+	if a == nil || b == nil {
+		return nil
+	}
+	d := new(big.Rat).Sub(b, a)
+	return d.Add(a, d.Mul(d, frac))
+}
+
+func c17FloatQuantile(s []float64, p float64) float64 {
+	n := 1/3.0 + p*(float64(len(s))+1/3.0)
+	kf, frac := math.Modf(n)
+	k := int(kf)
+	if k <= 0 {
+		return s[0]
+	}
+	if k >= len(s) {
+		return s[len(s)-1]
+	}
+	return s[k-1] + frac*(s[k]-s[k-1])
+}
+
+func c17SampleOverflows(vals []float64) bool {
+	if len(vals) == 0 {
+		return false
+	}
+	for _, v := range vals {
+		if math.IsNaN(v) {
+			return false
+		}
+	}
+	s := append([]float64(nil), vals...)
+	sort.Float64s(s)
+	q1, q3 := c17FloatQuantile(s, 0.25), c17FloatQuantile(s, 0.75)
+	lo, hi := q1-1.5*(q3-q1), q3+1.5*(q3-q1)
+	finite := func(x float64) bool { return !math.IsNaN(x) && !math.IsInf(x, 0) }
+	var kept []float64
+	for _, v := range vals {
+		if lo <= v && v <= hi {
+			kept = append(kept, v)
+		}
+	}
+	if !finite(lo) || !finite(hi) {
+		e1, e3 := c17ExactQuantile(s, big.NewRat(1, 4)), c17ExactQuantile(s, big.NewRat(3, 4))
+		if e1 != nil && e3 != nil {
+			w := new(big.Rat).Sub(e3, e1)
+			w.Mul(w, big.NewRat(3, 2))
+			elo, ehi := new(big.Rat).Sub(e1, w), new(big.Rat).Add(e3, w)
+			nk := 0
+			for _, v := range vals {
+				if finite(v) {
+					r := new(big.Rat).SetFloat64(v)
+					if elo.Cmp(r) <= 0 && r.Cmp(ehi) <= 0 {
+						if nk >= len(kept) || kept[nk] != v {
+							return true
+						}
+						nk++
+					}
+				}
+			}
+			if nk != len(kept) {
+				return true
+			}
+		}
+	}
+	if len(kept) > 0 {
+		m := 0.0
+		for i, x := range kept {
+			m += (x - m) / float64(i+1)
+		}
+		if math.IsNaN(m) {
+			return true
+		}
+		if math.IsInf(m, 0) {
+			among := false
+			for _, x := range kept {
+				if x == m {
+					among = true
+				}
+			}
+			if !among {
+				return true
+			}
+		}
+	}
+	return false
+}
+
+// c17OverflowTags: the input tag of the finding, from the values the input
+// records per key (Metrics.Values is the input gathered per key, judged equal
+// to the input records by the specification)
+func c17AnyOverflow(c *benchstat.Collection) bool {
+	for _, m := range c.Metrics {
+		if c17SampleOverflows(m.Values) {
+			return true
+		}
+	}
+	return false
+}
+
+func c17OverflowTags(c *benchstat.Collection, tags []string) []string {
+	if c17AnyOverflow(c) {
+		return append(append([]string{}, tags...), "C17_binary64_overflow")
+	}
+	return tags
 }
 
 func c17SortCounts(o *hx.Out, in c17Input, tables []*benchstat.Table) {
@@ -511,6 +660,14 @@ func c17Value(r *hx.Rng, base float64, style int) float64 {
 		return float64(r.Range(1, 5))
 	case 5: // negative allowed
 		return base * (r.Float() - 0.5)
+	case 6: // negative throughout: negative means (a lower value is a larger magnitude)
+		return -base * (1 + 0.02*(r.Float()-0.5))
+	case 7: // near the top of the binary64 range, either sign: differences and the fence overflow
+		v := 1.3e308 * (1 + 0.3*r.Float())
+		if r.Bool() {
+			v = -v
+		}
+		return v
 	}
 	return base
 }
@@ -578,9 +735,12 @@ func c17CollectionN(r *hx.Rng, big bool, names0 []string) c17Input {
 	for _, n := range names {
 		for _, u := range units {
 			b := math.Pow(10, float64(r.Range(-3, 9))) * (1 + r.Float())
-			st := []int{0, 0, 0, 0, 1, 2, 3, 4, 5, 0, 3}[r.Intn(11)]
-			if u != "widgets" && st == 5 {
+			st := []int{0, 0, 0, 0, 1, 2, 3, 4, 5, 0, 3, 6}[r.Intn(12)]
+			if u != "widgets" && st == 5 && r.Bool() {
 				st = 0
+			}
+			if special && r.Chance(0.01) {
+				st = 7
 			}
 			plan[n+"\x00"+u] = bu{b, st}
 		}
@@ -638,15 +798,19 @@ func c17CollectionN(r *hx.Rng, big bool, names0 []string) c17Input {
 				}
 				p := plan[n+"\x00"+u]
 				v := c17Value(r, p.base*shift, p.style)
-				if r.Chance(0.05) {
+				if r.Chance(0.05) && p.style != 7 {
 					v *= []float64{10, 0.1, 3, 100, -1}[r.Intn(5)] // outlier
 				}
 				txt := c17Fmt(v)
 				sp := r.Intn(200)
-				if !special && sp == 1 {
+				if (sp == 1 || sp == 4 || sp == 5) && (!special || r.Chance(0.6)) {
 					sp = 100
 				}
 				switch sp {
+				case 4:
+					txt = "-Inf"
+				case 5:
+					txt = []string{"1.5e308", "-1.5e308", "1.7e308", "-1.7e308"}[r.Intn(4)]
 				case 0:
 					txt = "abc" // unparsable: pair skipped
 				case 1:
@@ -919,7 +1083,7 @@ func c17Threshold(r *hx.Rng) (c17Input, bool) {
 }
 
 func genC17(o *hx.Out, r *hx.Rng, tier string, replay string) error {
-	o.Rule = "collections of 1-4 configurations (same name twice allowed) built through AddConfig/AddFile/AddResults from generated benchmark text: 1-5 (or 6-24) benchmarks x 1-3 units from {ns/op, MB/s, B/op, allocs/op, x-MB/s, widgets, speed, y-ns/op, ns/GC, z-B/op, -MB/s, MB/s-x}, 1-25 runs, missing and repeated benchmarks, outliers, constant/zero/tied/negative samples, ignored and malformed lines, label changes; x {nil, UTest, TTest, NoDeltaTest, two custom tests} x alpha x SplitBy x Order (ByName, ByDelta, Reverse up to twice) x AddGeoMean; plus a sort stress stream (two configurations, 13-40 rows, rows sharing sample profiles and names repeated across packages so that keys tie, every Order) and a threshold stream (small integer samples under U/t-test with alpha on, one ulp around, and within 0.0004 of a row's unrounded p, or samples searched until p is within 0.0005 of alpha 0.05/0.01/0.1) and a history stream on ONE Collection (1-4 stages, each: add 0-6 further configurations, Tables(), then FormatText/FormatCSV/FormatHTML of those tables in a random order; 2-6 configurations whose names mostly share a directory prefix such as runs/a.txt, runs/b.txt, runs/c.txt, sometimes a name added again later; every Tables() result judged against the records added so far, collection and tables observed again after formatting). non-trivial = at least one table; distinct by input"
+	o.Rule = "collections of 1-4 configurations (same name twice allowed) built through AddConfig/AddFile/AddResults from generated benchmark text: 1-5 (or 6-24) benchmarks x 1-3 units from {ns/op, MB/s, B/op, allocs/op, x-MB/s, widgets, speed, y-ns/op, ns/GC, z-B/op, -MB/s, MB/s-x}, 1-25 runs, missing and repeated benchmarks, outliers, constant/zero/tied/negative samples (negative means on every unit), samples at +-1.3e308..1.7e308 and +-Inf among at most 20 rows, ignored and malformed lines, label changes; x {nil, UTest, TTest, NoDeltaTest, two custom tests} x alpha x SplitBy x Order (ByName, ByDelta, Reverse up to twice) x AddGeoMean; plus a sort stress stream (two configurations, 13-40 rows, rows sharing sample profiles and names repeated across packages so that keys tie, every Order) and a threshold stream (small integer samples under U/t-test with alpha on, one ulp around, and within 0.0004 of a row's unrounded p, or samples searched until p is within 0.0005 of alpha 0.05/0.01/0.1) and a history stream on ONE Collection (1-4 stages, each: add 0-6 further configurations, Tables(), then FormatText/FormatCSV/FormatHTML of those tables in a random order; 2-6 configurations whose names mostly share a directory prefix such as runs/a.txt, runs/b.txt, runs/c.txt, sometimes a name added again later; every Tables() result judged against the records added so far, collection and tables observed again after formatting). non-trivial = at least one table; distinct by input"
 	n := 1500
 	nbig := 60
 	nsort, nthr := 40, 60
@@ -938,6 +1102,27 @@ func genC17(o *hx.Out, r *hx.Rng, tier string, replay string) error {
 			{Name: "old", Mode: "text", Text: "BenchmarkA 1 10 MB/s\nBenchmarkA 1 11 MB/s\nBenchmarkA 1 12 MB/s\nBenchmarkB 1 1 MB/s\nBenchmarkB 1 2 MB/s\nBenchmarkB 1 3 MB/s\n"},
 			{Name: "new", Mode: "text", Text: "BenchmarkA 1 20 MB/s\nBenchmarkA 1 21 MB/s\nBenchmarkA 1 22 MB/s\nBenchmarkB 1 1 MB/s\nBenchmarkB 1 2 MB/s\nBenchmarkB 1 3.5 MB/s\n"}}},
 		{Test: "utest", Order: "nil", SplitBy: []string{}, Configs: []c17Config{}},
+		// audit witnesses.  Negative means: -10 -> -5 ns/op is a higher value, hence a
+		// regression, printed "-49.80%"; -1.04 -> +1.04 widgets prints "-200.00%"
+		{Test: "utest", Order: "delta", SplitBy: []string{}, Configs: []c17Config{
+			{Name: "old", Mode: "text", Text: c17Text([]c17Sample{{"p", "Neg", "ns/op", []float64{-10, -10.1, -9.9, -10, -10.2}}, {"p", "Neg", "MB/s", []float64{-10, -10.1, -9.9, -10, -10.2}}, {"p", "Flip", "widgets", []float64{-1, -1.1, -1, -1.1, -1}}})},
+			{Name: "new", Mode: "text", Text: c17Text([]c17Sample{{"p", "Neg", "ns/op", []float64{-5, -5.1, -4.9, -5, -5.2}}, {"p", "Neg", "MB/s", []float64{-5, -5.1, -4.9, -5, -5.2}}, {"p", "Flip", "widgets", []float64{1, 1.1, 1, 1.1, 1}}})}}},
+		// the geomean of an old-new table: C has no row (new lacks it) yet takes part in the
+		// old column (the statement does not restrict the geomean to the rows shown)
+		{Test: "utest", Order: "nil", GeoMean: true, SplitBy: []string{}, Configs: []c17Config{
+			{Name: "old", Mode: "text", Text: c17Text([]c17Sample{{"p", "A", "ns/op", []float64{10, 10, 10}}, {"p", "B", "ns/op", []float64{10, 10, 10}}, {"p", "C", "ns/op", []float64{1000, 1000}}})},
+			{Name: "new", Mode: "text", Text: c17Text([]c17Sample{{"p", "A", "ns/op", []float64{10, 10, 10}}, {"p", "B", "ns/op", []float64{10, 10, 10}}})}}},
+		{Test: "nodelta", Order: "nil", GeoMean: true, SplitBy: []string{}, Configs: []c17Config{
+			{Name: "old", Mode: "text", Text: c17Text([]c17Sample{{"p", "A", "ns/op", []float64{10, 11, 12}}, {"p", "B", "ns/op", []float64{20, 21, 22}}, {"p", "C", "ns/op", []float64{1000, 1001}}})},
+			{Name: "new", Mode: "text", Text: c17Text([]c17Sample{{"p", "C", "ns/op", []float64{500, 501}}, {"p", "A", "ns/op", []float64{5, 6, 7}}, {"p", "D", "ns/op", []float64{7, 8, 9}}})}}},
+		// symmetric outliers: the mean of ALL values (10) and the median (10) lie inside the retained hull
+		{Test: "nodelta", Order: "nil", SplitBy: []string{}, Configs: []c17Config{
+			{Name: "old", Mode: "text", Text: c17Text([]c17Sample{{"p", "S", "ns/op", []float64{1, 10, 10, 10, 10, 19}}, {"p", "T", "ns/op", []float64{1, 2, 3, 4, 5, 6, 7, 8, 90}}})},
+			{Name: "new", Mode: "text", Text: c17Text([]c17Sample{{"p", "S", "ns/op", []float64{1, 10, 10, 12, 10, 19}}, {"p", "T", "ns/op", []float64{9, 8, 7, 6, 5, 4, 3, 2, 1}}})}}},
+		// known finding C17_binary64_overflow: mean NaN, fence (+Inf,-Inf)
+		{Test: "nodelta", Order: "nil", SplitBy: []string{}, Configs: []c17Config{
+			{Name: "old", Mode: "text", Text: c17Text([]c17Sample{{"p", "Big", "ns/op", []float64{1.5e308, -1.5e308, 1.5e308, -1.5e308}}, {"p", "Inf", "ns/op", []float64{math.Inf(1), 1, 2}}, {"p", "InfLast", "ns/op", []float64{1, 2, math.Inf(1)}}})},
+			{Name: "new", Mode: "text", Text: c17Text([]c17Sample{{"p", "Big", "ns/op", []float64{1.7e308, -1.7e308, 1.7e308}}, {"p", "Inf", "ns/op", []float64{1, 2, 3}}, {"p", "InfLast", "ns/op", []float64{1, 2, 3, 4, 5, 6, 7, 8, 9, math.Inf(1)}}})}}},
 	}
 	for _, in := range fixed {
 		in.AlphaS = c17Fmt(in.Alpha)
